@@ -6,8 +6,8 @@ import (
 	"os"
 	"strconv"
 	"sync/atomic"
-	"time"
 	"testing"
+	"time"
 )
 
 // Ev is one trace event / one observation.
